@@ -706,6 +706,18 @@ const EXTRA_CAPS: [&str; 4] = [
     "http://xml.juniper.net/dmi/system/1.0",
 ];
 
+fn lookalikes(c: &Value) -> Vec<&'static str> {
+    match c["extra"].as_str().unwrap_or("none") {
+        // the XML namespace of the protocol, which many servers list next to the capabilities
+        "ns-form" => vec!["urn:ietf:params:xml:ns:netconf:base:1.0"],
+        // the YANG module of the base protocol (RFC 6241 section 10)
+        "yang-module" => vec!["urn:ietf:params:xml:ns:netconf:base:1.0?module=ietf-netconf&revision=2011-06-01"],
+        "other-versions" => vec!["urn:ietf:params:netconf:base:1.0.1", "urn:ietf:params:netconf:base:10", "urn:ietf:params:netconf:base:2.0"],
+        "capability-form" => vec!["urn:ietf:params:netconf:capability:base:1.0", "urn:ietf:params:netconf:base"],
+        _ => vec![],
+    }
+}
+
 fn hello_case_xml(c: &Value) -> String {
     let base = strs(&c["base"]);
     let sid = c["sid"].as_str().unwrap();
@@ -726,6 +738,10 @@ fn hello_case_xml(c: &Value) -> String {
     caps.push_str(&format!("<{p}capability>{JUNOS_CAP}</{p}capability>"));
     // capabilities the library has no name for are still part of what the server said
     for u in EXTRA_CAPS {
+        caps.push_str(&format!("<{p}capability>{}</{p}capability>", u.replace('&', "&amp;")));
+    }
+    // capabilities that look like a base-protocol capability and are none
+    for u in lookalikes(c) {
         caps.push_str(&format!("<{p}capability>{}</{p}capability>", u.replace('&', "&amp;")));
     }
     let sid_el = |t: &str| format!("<{p}session-id>{t}</{p}session-id>");
@@ -784,6 +800,7 @@ fn c12(cases_path: &str, out: &mut dyn Write) {
             hello_caps.push("urn:ietf:params:netconf:capability:candidate:1.0".into());
             hello_caps.push(JUNOS_CAP.into());
             hello_caps.extend(EXTRA_CAPS.iter().map(|u| u.to_string()));
+            hello_caps.extend(lookalikes(c).iter().map(|u| u.to_string()));
             hello_caps.sort();
             let mut ev = json!({"ev": "c12", "case": k, "c": c, "client_base": client_base, "hello_caps": hello_caps,
                                 "client_hello_framing": if client_hello.ends_with(EOM) { "eom" } else { "other" }});
@@ -995,6 +1012,13 @@ fn class_text(c: &str) -> &'static str {
         "delim" => "]]>]]>",
         "nonascii" => "\u{e9}\u{6f22}",
         "space" => " x ",
+        // text that a "normaliser" would rewrite: dot segments, percent-encoded unreserved characters and
+        // lower-case hex digits, upper-case letters (in a URL: scheme, host), a backslash, a control character
+        "dotseg" => "a/../b/./c",
+        "pctenc" => "%7Euser%2fx",
+        "upcase" => "AbC",
+        "bslash" => "d\\e",
+        "tab" => "f\tg",
         _ => "",
     }
 }
@@ -1038,6 +1062,7 @@ fn c10(cases_path: &str, out: &mut dyn Write) {
                 "xpath-get" => { let (s, l) = go!(Get, move |b| b.filter(Some(Filter::XPath(val))).finish()); (s, l, "@select", false) }
                 "url-edit" => { let (s, l) = go!(EditConfig<Raw>, move |b| b.target(Datastore::Candidate)?.url(format!("file:///cfg/{val}?a=1&b={val}"))?.finish()); (s, l, "url", false) }
                 "url-delete" => { let (s, l) = go!(DeleteConfig, move |b| b.url(format!("http://h.example/p/{val}?x={val}&y=2"))?.finish()); (s, l, "url", false) }
+                "url-host" => { let (s, l) = go!(DeleteConfig, move |b| b.url(format!("http://{val}.Example.COM/Cfg/{val}"))?.finish()); (s, l, "url", false) }
                 "text-config" => { let (s, l) = go!(LoadConfiguration<_>, move |b| b.source(Config::new(val, Text, Merge)).finish()); (s, l, "configuration-text", false) }
                 "json-config" => { let (s, l) = go!(LoadConfiguration<_>, move |b| b.source(Config::new(val, Json, Merge)).finish()); (s, l, "configuration-json", false) }
                 "set-config" => { let (s, l) = go!(LoadConfiguration<_>, move |b| b.source(Config::new(val, Text, Set)).finish()); (s, l, "configuration-set", false) }
@@ -1077,6 +1102,7 @@ fn c10(cases_path: &str, out: &mut dyn Write) {
             let expect = match param.as_str() {
                 "url-edit" => format!("file:///cfg/{value}?a=1&b={value}"),
                 "url-delete" => format!("http://h.example/p/{value}?x={value}&y=2"),
+                "url-host" => format!("http://{value}.Example.COM/Cfg/{value}"),
                 "subtree-filter" | "edit-fragment" | "copy-fragment" | "edit-opaque" | "load-opaque" => format!("{value}|{value}"),
                 _ => value.clone(),
             };
